@@ -266,6 +266,17 @@ func parseExpr(in []byte) (Q, int, error) {
 		if subQ == nil {
 			return nil, 0, fmt.Errorf("query: '-' operator needs an argument")
 		}
+		// case: and type: are directives for the enclosing expression list,
+		// not filters. Negating them would leave a node in the query that
+		// cannot be evaluated or converted.
+		switch d := subQ.(type) {
+		case *caseQ:
+			return nil, 0, fmt.Errorf("query: cannot negate case:%s", d.Flavor)
+		case *Type:
+			if d.Child == nil {
+				return nil, 0, fmt.Errorf("query: cannot negate a type: directive")
+			}
+		}
 		b = b[n:]
 		expr = &Not{subQ}
 
